@@ -3,7 +3,7 @@
    op 1: one propagation; op 2: a propagation followed by a propagation of its result (pupil ->
    image -> pupil); op 3: a history of steps on src (0 = the initial wavefront, j > 0 = the result of step j): a
    propagation, or the multiplication by one more array-valued plane (Field.__mul__ of Model/Field.v); the model is a pure function, so a wavefront propagated several
-   times gives what a fresh copy would give.  The square root of the unitary factor is applied by the harness (sq = 1). *)
+   times gives what a fresh copy would give; op 4: Wavefront.insert(out, weight).  The square root of the unitary factor is applied by the harness (sq = 1). *)
 From LV Require Import Extract.FieldCodec Model.Propagate.
 Require Import ExtrOcamlBasic.
 
@@ -92,6 +92,12 @@ Definition run (inp : list Z) : list Z :=
     else if op =? 3 then
       match pall (w <- pwavefront L ;; st <- plist (pstep L) ;; pret (w, st)) rest with
       | Some (w, st) => 0 :: elist (eresult (ewavefront L)) (history L w st [])
+      | None => emalformed end
+    else if op =? 4 then
+      (* Wavefront.insert(out, weight) on a wavefront given by its fields *)
+      match pall (fs <- plist (pfield L) ;; out <- parr L ;; wt <- pK L ;; pret (fs, out, wt)) rest with
+      | Some (fs, out, wt) =>
+          eresult (earr L) (winsert (S := GRS L) (mkWf 0%Qc None None (0, 0) PtNone fs) out wt)
       | None => emalformed end
     else emalformed
   | _ => emalformed
